@@ -758,6 +758,43 @@ theorem kf_bin_raw_sum_zero_nonzero_integral :
     integrate ⟨[0, 1, 2, 3, 4], [1, 0, 1, 0, 1]⟩ 0 4 = 2 := by
   refine ⟨?_, ?_, ?_⟩ <;> decide +kernel
 
+/-- `append`'s overlap guard in the model is the comparison regenerated from the source line
+`if np.any(other.wave <= self.wave): raise ValueError()` (`Gen.appendRefusesAt`), in every NumPy broadcasting case -/
+theorem append_guard_is_code (o w : List ℚ) :
+    anyLeBroadcast o w =
+      if o.length = w.length then some ((List.zipWith Gen.appendRefusesAt o w).any id)
+      else if o.length = 1 then some (w.any (fun b => Gen.appendRefusesAt o.head! b))
+      else if w.length = 1 then some (o.any (fun a => Gen.appendRefusesAt a w.head!))
+      else none := rfl
+
+/-- the regenerated element test refuses a wavelength that merely TOUCHES the paired one (closed comparison): an
+accepted append never repeats a wavelength -/
+theorem append_guard_refuses_touching (ow sw : ℚ) : Gen.appendRefusesAt ow sw = true ↔ ow ≤ sw := by
+  simp [Gen.appendRefusesAt]
+
+/-- a single appended sample (`other.wave` of length 1, broadcast against the whole grid) is refused as soon as it does
+not lie strictly beyond EVERY wavelength of the spectrum — stated on the regenerated comparison through the model -/
+theorem append_single_refused (x v : ℚ) (s : Spectrum) (hl : s.wave.length ≠ 1) (b : ℚ) (hb : b ∈ s.wave) (hx : x ≤ b) :
+    append ⟨[x], [v]⟩ s = (s, some .valueError) := by
+  have hany : (s.wave.any fun b => Gen.appendRefusesAt x b) = true :=
+    List.any_eq_true.mpr ⟨b, hb, (append_guard_refuses_touching x b).mpr hx⟩
+  have hl' : ¬ (1 = s.wave.length) := fun h => hl h.symm
+  simp only [append, append_guard_is_code, List.length_singleton, hl', if_false, if_true, List.head!_cons, hany]
+
+/-- `trim` keeps the slice `[index_min : index_max + 1]` of the source (`Gen.trimSliceStart/Stop`, regenerated from the two
+slice assignments of `Spectrum.trim`): the model's `slice a b` is Python's `l[start:stop]` for those bounds -/
+theorem trim_slice_is_code (a b : Nat) (l : List ℚ) :
+    slice a b l = (l.drop (Gen.trimSliceStart a b).toNat).take
+      ((Gen.trimSliceStop a b).toNat - (Gen.trimSliceStart a b).toNat) := by
+  have h1 : (Gen.trimSliceStart a b).toNat = a := by simp only [Gen.trimSliceStart]; omega
+  have h2 : (Gen.trimSliceStop a b).toNat = b + 1 := by simp only [Gen.trimSliceStop]; omega
+  rw [h1, h2]; rfl
+
+/-- non-vacuity of `append_single_refused`, and the accepted counterpart -/
+example : append ⟨[4], [1]⟩ ⟨[1, 2, 4], [5, 6, 7]⟩ = (⟨[1, 2, 4], [5, 6, 7]⟩, some .valueError) ∧
+    append ⟨[5], [1]⟩ ⟨[1, 2, 4], [5, 6, 7]⟩ = (⟨[1, 2, 4, 5], [5, 6, 7, 1]⟩, none) := by
+  refine ⟨?_, ?_⟩ <;> decide +kernel
+
 /-- non-vacuity: a history with an accepted crop, a refused append and an accepted pad -/
 example : run ⟨[1, 2, 4, 8], [5, 6, 7, 8]⟩ [.crop 2 5, .append ⟨[3, 9], [1, 1]⟩, .pad 1 6 none false 0 0]
     = ⟨[1, 2, 4, 6], [0, 6, 7, 0]⟩ := by decide +kernel
